@@ -56,17 +56,15 @@ id=failed-cmd-rewrote-output (garbage validated by an old log entry, "no work to
 both sides, and does.  selfcheck uses the model's own taint_safe verdict (C01F_history: accepted, not failed,
 taint_safe => everything needed is clean).  Graphs of fault histories get no input-less phony statement.
 
-KNOWN DEVIATION of the model (found by this check; pinned by HistRun.ExAlwaysRestat): with an input-less phony statement
-(no_inputless_phony = false) a statement that reads it is dirty in every run; when that statement is `restat` and leaves
-its outputs alone, ninja's Plan::CleanNode prunes what depends on it, HistDefs.dirty_now (a fresh scan, in which the
-always-dirty statement is dirty AGAIN) does not: the model re-runs a superset.  For graphs with no_inputless_phony = false
-the run-set rule is therefore relaxed to: engine's set is a subset of the model's and every surplus statement lies below
-an always-dirty statement (tainted_statements); log/times are not compared for those statements (their recorded times
-drift apart); accept / exists / clean stay exact.  With no_inputless_phony = true every rule is exact.
-The recorded-deps model (HistDepsDefs.dirty_now_d is built on dirty_now) has a second source of always-dirty statements: a
-deps statement one of whose hidden reads is a source file that is MISSING (no rule: dirty, not an error) is dirty in
-every scan; if it is `restat` and leaves its outputs alone, ninja prunes below it and the model does not.  Same relaxed
-rule, for the builds in which such a file is missing.
+THE BUILD LOOP that is run is HistFaithful.build_f (HistDepsFaithful.dbuild_f for recorded deps): Plan::CleanNode and the
+restat loop of FinishCommand followed literally.  HistDefs.build (dirty_now: a fresh scan per statement) was found by this
+check to re-run a SUPERSET below a statement that is dirty in every scan -- one that reads an input-less phony name, or a
+deps statement with a missing hidden source -- when that statement is `restat` and leaves its outputs alone (pinned by
+HistRun.ExAlwaysRestat, HistFaithful.ExF, HistDepsFaithful.ExDF; build_f = build under no_inputless_phony:
+HistFaithfulProofs.build_f_eq_build).  With the faithful loops EVERY rule is exact, also when no_inputless_phony /
+hist_present are false.  The driver runs build / dbuild next to the faithful loop from the same state (old=): the builds in
+which they differ are counted, and "same acceptance, sub-sequence" is a selfcheck.  buildF_full (failing commands) and the
+crash model sit on dirty_now: their graphs get no input-less phony statement; dry_build only scans and is not affected.
 
 RECORDED DEPENDENCIES (coq/Engine/HistDepsDefs.v dbuild, theorems in Properties_C10hist.v; used by props/c10.py): graphs
 of fragment ABD = AB + statements with deps = gcc whose commands read HIDDEN files (sources, also ones the manifest never
@@ -266,17 +264,137 @@ def gen_history(rnd, sid, outside=False, dry=0.0, fault=False, deps=False):
     st = do_build(); repeat(st)
     return h
 
+# ------------------------------------------------------------------ kills and interrupts (HistCrashDefs)
+def clone_hist(base, sid):
+    h = ec.Hist(sid, copy.deepcopy(base.g0))
+    h.g = copy.deepcopy(base.g); h.sources = dict(base.sources); h.steps = list(base.steps)
+    h.header = base.header[:]; h.header[0] = 'scenario %s' % sid; h.tags = set(base.tags)
+    return h
+
+def gen_kill_base(rnd, sid):
+    """a history prefix in fragment AB (no input-less phony: the kill model sits on dirty_now) that ends right before the
+    invocation that will be killed / interrupted; base.subject = the targets of that invocation"""
+    g = strip_graph(engine.gen_graph(rnd, rnd.randrange(2, 8), dict(FEAT, multiout=0.45)), rnd, no_inputless_phony=True)
+    h = ec.Hist(sid, g)
+    allouts = [o for e in g.edges for o in e.outs]
+    pick = lambda: (rnd.sample(allouts, rnd.randrange(1, min(3, len(allouts)) + 1)) if rnd.random() < 0.3 else None)
+    sched = lambda: ec.rand_sched(rnd, 2 * len(g.edges) + 2)
+    if rnd.random() < 0.85:
+        h.build(rnd, pick(), j=rnd.choice([1, 2, 4]), k=1, sched=sched())
+        for _ in range(rnd.randrange(1, 4)):
+            r = rnd.random(); ne = [e for e in g.edges if not e.phony]
+            if r < 0.4:
+                sname = rnd.choice(sorted(g.sources)); h.edit(sname, 'common' if rnd.random() < 0.1 else '%s.%d' % (sname, rnd.randrange(1000000)))
+            elif r < 0.5:
+                ex = sorted(x for x in g.sources if x in h.sources)
+                if ex: sname = rnd.choice(ex); h.add(ec.Step('touch', 'step touch %s' % hx(sname), path=sname))
+            elif r < 0.75 and ne:
+                e = rnd.choice(ne); o = rnd.choice(e.outs); h.add(ec.Step('rm', 'step rm %s' % hx(o), path=o)); h.tags.add('rm-output')
+            elif ne:
+                e = rnd.choice(ne); e.ver += 1; h.rewrite_manifest()
+            if rnd.random() < 0.2: h.build(rnd, pick(), j=1, k=1, sched=sched())
+    h.subject = pick()
+    return h
+
+def kill_scenarios(rnd, bases, cap):
+    """per base: the reference run, and one scenario per crash point of the subject invocation (at most `cap`, spread over
+    all of them): killed there, then a recovery build and its repetition.  A first engine pass counts the crash points."""
+    probes = []
+    for b in bases:
+        p = clone_hist(b, b.sid + '_probe'); p.build(rnd, b.subject, j=1, k=1, sched=[0] * 16, crash=10000000); probes.append(p)
+        p = clone_hist(b, b.sid + '_cnt'); p.build(rnd, b.subject, j=1, k=1, sched=[0] * 16); probes.append(p)
+    rc, tr, err, out = ec.run_hists(probes)
+    for b in bases: b.ncmds = len(tr[b.sid + '_cnt'][-1].started) if tr.get(b.sid + '_cnt') else 0
+    npts = {}; cur = None
+    for l in out:
+        w = l.split()
+        if w and w[0] == 'scenario': cur = w[1]
+        if l.startswith('ev crash-not-reached points='): npts[cur] = int(l.split('=')[1])
+    res = []; total = 0
+    for b in bases:
+        n = npts.get(b.sid + '_probe', 0); total += n
+        ref = clone_hist(b, b.sid + '_ref'); ref.build(rnd, b.subject, j=1, k=1, sched=[0] * 16); ref.kill_mode = True
+        res.append(ref)
+        ks = list(range(n)) if n <= cap else sorted(rnd.sample(range(n), cap))
+        for k in ks:
+            v = clone_hist(b, '%s_k%d' % (b.sid, k)); v.kill_ref = ref.sid; v.kill_mode = True
+            v.build(rnd, b.subject, j=1, k=1, sched=[0] * 16, crash=k)
+            st = v.build(rnd, b.subject, j=rnd.choice([1, 1, 3]), k=1, sched=ec.rand_sched(rnd, 16))
+            v.add(ec.Step('build', st.line, g=st.g, sources=st.sources, targets=st.targets, opts=st.opts, repeat=True))
+            res.append(v)
+    return res, total
+
+def intr_scenarios(rnd, bases):
+    """per base: the subject invocation interrupted at a random wait (-j1), the running command having or not having modified
+    its outputs; then a recovery build and its repetition"""
+    res = []
+    for b in bases:
+        n = getattr(b, 'ncmds', 3)
+        for w in sorted(set(rnd.randrange(0, max(1, n)) for _ in range(2))) + ([n] if rnd.random() < 0.1 else []):
+            v = clone_hist(b, '%s_int%d' % (b.sid, w)); v.kill_mode = True
+            ne = [e.out0 for e in v.g.edges if not e.phony]
+            part = [o for o in ne if rnd.random() < 0.6]
+            v.build(rnd, b.subject, j=1, k=1, sched=[0] * 16, interrupt=w, partial=part or None)
+            st = v.build(rnd, b.subject, j=rnd.choice([1, 1, 3]), k=1, sched=ec.rand_sched(rnd, 16))
+            v.add(ec.Step('build', st.line, g=st.g, sources=st.sources, targets=st.targets, opts=st.opts, repeat=True))
+            res.append(v)
+    return res
+
+def check_crash(ctx, seed, nbases, cap=10, keep=None):
+    """kills at the engine's crash points and interrupts against HistCrashDefs.  Returns (mismatches, stats)."""
+    rnd = random.Random(seed * 1000003 + 777)
+    bases = [gen_kill_base(rnd, 'KILL_%d_%d' % (seed, i)) for i in range(nbases)]
+    ks, total = kill_scenarios(rnd, bases, cap)
+    mism, stats = compare_hists(ks + intr_scenarios(rnd, bases), keep)
+    stats['base histories'] = nbases; stats['crash points of the subject invocations (engine)'] = total
+    stats['crash point scenarios run'] = sum(1 for h in ks if getattr(h, 'kill_ref', None))
+    return mism, stats
+
 # ------------------------------------------------------------------ mapping to the model line
 def step_kind(st):
-    """'plain' | 'dry' | 'fault' for a build step"""
+    """'plain' | 'dry' | 'fault' | 'kill' | 'intr' for a build step"""
     if st.opts.get('dry'): return 'dry'
     if st.opts.get('faults'): return 'fault'
+    if st.opts.get('crash') is not None: return 'kill'
+    if st.opts.get('interrupt') is not None: return 'intr'
     return 'plain'
+
+def classify_kill(g, by_out0, ref, dump):
+    """Where did the engine die?  `ref` = the Build of the SAME invocation run to its end (-j1: the schedule is deterministic, the
+    logical clock too), `dump` = the Build of the killed one (disk, log and clock as the kill left them; its events are lost
+    with the child).  Every command of `ref` before the first incomplete one is complete in `dump`; the incomplete one is placed
+    by what it has written and logged.  Returns (before, statement position or None = after the last, point, None) or
+    (None, None, None, reason) when the model has no such crash point."""
+    cmds = []
+    for ev in ref.events:
+        if ev[0] == 'start' and ev[1] in by_out0: cmds.append((by_out0[ev[1]], ev[2]['tick']))
+    before = []
+    for idx, (pos, t0) in enumerate(cmds):
+        e = g.edges[pos]
+        written = [o for o in e.outs if o in ref.files and ref.files[o][0] > t0]          # rewritten by this command in ref
+        w_d = [o for o in written if dump.files.get(o) == ref.files.get(o)]
+        l_d = [o for o in e.outs if o in ref.log and dump.log.get(o) == ref.log.get(o)]
+        if len(w_d) == len(written) and len(l_d) == len(e.outs): before.append(pos); continue
+        for pos2, t2 in cmds[idx + 1:]:                                                     # nothing of a later command
+            e2 = g.edges[pos2]
+            if any(o in ref.files and ref.files[o][0] > t2 and dump.files.get(o) == ref.files.get(o) for o in e2.outs) or \
+               any(o in ref.log and dump.log.get(o) == ref.log.get(o) for o in e2.outs):
+                return None, None, None, 'a later command has left traces'
+        if l_d:
+            if l_d != e.outs[:len(l_d)] or len(w_d) != len(written): return None, None, None, 'log entries out of order'
+            return before, pos, 'j%d' % len(l_d), None
+        if written and len(w_d) == len(written): return before, pos, 'j0', None               # command done, nothing logged (KWritten)
+        if w_d:
+            k = len(w_d)
+            if w_d != e.outs[:k]: return None, None, None, 'a restat command skipped an output before one it wrote'
+            return before, pos, 'w%d' % k, None
+        return before, pos, ('l' if dump.now >= t0 else 'b'), None
+    return before, None, 'b', None
 
 class Map:
     """node / statement numbering and the model line of one history.  Python side: a statement is its POSITION in g.edges;
     model side: its number in `order` (the sequential order the model runs the statements in)."""
-    def __init__(s, h, builds=None):
+    def __init__(s, h, builds=None, ref=None):
         g = h.g0
         s.names = sorted(g.sources) + [o for e in g.edges for o in e.outs]
         for e in g.edges:
@@ -291,27 +409,48 @@ class Map:
         s.by_out0 = {e.out0: k for k, e in enumerate(g.edges)}      # out0 -> position
         s.cid = {}                                                   # content string -> number
         s.known_hash = {}                                            # command text -> ninja's hash of it (learnt from the trace)
-        s.order = s.schedule(h, builds)                              # model number -> position
+        s.order = s.schedule(h, builds, ref)                         # model number -> position
         s.num = {pos: n for n, pos in enumerate(s.order)}            # position -> model number
         s.line = s.make_line(h)
-    def schedule(s, h, builds):
+    def schedule(s, h, builds, ref=None):
         """the order the model takes the statements in.  Without a failing build: the manifest order.  With one: the order of
         ninja's own -j1 schedule in that build: what the commands started before the failing one need (transitively, every
         input kind), in manifest order, then the failing statement, then the rest in manifest order."""
         g = h.g0; ident = list(range(len(g.edges)))
+        s.kill = None; s.intr = None
         if not builds: return ident
         for st, b in ec.pair(h, builds):
-            if step_kind(st) != 'fault': continue
-            failed = [o for o, c in b.finished if c != 0]
-            if not failed or failed[0] not in s.by_out0: return ident
-            f = s.by_out0[failed[0]]
+            kd = step_kind(st)
+            if kd == 'fault':
+                failed = [o for o, c in b.finished if c != 0]
+                if not failed or failed[0] not in s.by_out0: return ident
+                f = s.by_out0[failed[0]]
+                # only what was started BEFORE the command failed orders the model: a command started afterwards must show as a difference
+                before = []
+                for ev in b.events:
+                    if ev[0] == 'finish' and ev[1] == failed[0]: break
+                    if ev[0] == 'start': before.append(ev[1])
+            elif kd == 'kill':
+                if ref is None or not ref: s.kill = ('skip', 'no reference run'); return ident
+                bef, f, at, why = classify_kill(st.g, s.by_out0, ref[-1], b)
+                if why: s.kill = ('skip', why); return ident
+                s.kill = (f, at, bef)
+                if f is None: return ident
+                before = [g.edges[k].out0 for k in bef]
+            elif kd == 'intr':
+                if not any(ev[0] == 'interrupt' for ev in b.events): s.intr = None; return ident     # the build ended before that wait
+                running = []
+                for ev in b.events:
+                    if ev[0] == 'interrupt': break
+                    if ev[0] == 'start': running.append(ev[1])
+                    if ev[0] == 'finish': running = [r for r in running if r != ev[1]]
+                if len(running) != 1 or running[0] not in s.by_out0: s.intr = ('skip', 'not exactly one running command'); return ident
+                f = s.by_out0[running[0]]
+                s.intr = (f, len(g.edges[f].outs) if running[0] in (st.opts.get('partial') or []) else 0)
+                before = [o for o in b.started if o != running[0]]
+            else: continue
             prod = {o: k for k, e in enumerate(g.edges) for o in e.outs}
-            # only what was started BEFORE the command failed orders the model: a command started afterwards must show as a difference
-            before = []
-            for ev in b.events:
-                if ev[0] == 'finish' and ev[1] == failed[0]: break
-                if ev[0] == 'start': before.append(ev[1])
-            first = set(); todo = [s.by_out0[o] for o in before if o in s.by_out0]
+            first = set(); todo = [s.by_out0[o] for o in before if o in s.by_out0] + [f]      # f's own (clean) ancestors come first too
             while todo:
                 k = todo.pop()
                 if k in first: continue
@@ -362,6 +501,12 @@ class Map:
                         nf += 1
                         fs.append('%d:%s' % (s.num[s.by_out0[o0]], 'w%d' % (GARBAGE_BASE + 1000 * nf) if touch else 'u'))
                     S.append('f' + t + '@' + '/'.join(fs))
+                elif k == 'kill':
+                    if s.kill is None or s.kill[0] == 'skip': S.append('b' + t)         # not compared (see compare_hists)
+                    else: S.append('k%s@%d:%s' % (t, len(g.edges) if s.kill[0] is None else s.num[s.kill[0]], s.kill[1]))
+                elif k == 'intr':
+                    if s.intr is None or s.intr[0] == 'skip': S.append('b' + t)
+                    else: nf += 1; S.append('i%s@%d:%d:%d' % (t, s.num[s.intr[0]], s.intr[1], GARBAGE_BASE + 1000 * nf))
                 else: S.append('b' + t)
             else:
                 raise ValueError('step kind %s is outside the model' % st.kind)
@@ -395,8 +540,10 @@ def parse_model(out, m):
                                  None if f[3] == '-' else (int(f[3], 16), int(f[4])), dp)
         raw = kv.get('run', kv.get('list', '-'))
         raw = [] if raw == '-' else [int(x) for x in raw.split('+')]
-        builds.append(dict(what=bl.split()[0], ok=kv['ok'] == '1', raw=raw, run=[m.order[x] for x in raw], nodes=nodes,
-                           ts=kv.get('ts', '1') == '1', failed=kv.get('failed') == '1',
+        old = kv.get('old'); old = None if old is None else ([] if old == '-' else [m.order[int(x)] for x in old.split('+')])
+        builds.append(dict(what=bl.split()[0], ok=kv['ok'] == '1', raw=raw, run=[m.order[x] for x in raw], nodes=nodes, old=old, oldok=kv.get('oldok', kv['ok']) == '1',
+                           ts=kv.get('ts', '1') == '1', tss=kv.get('tss', kv.get('ts', '1')) == '1', failed=kv.get('failed') == '1',
+                           hit=kv.get('hit') == '1', exit=int(kv['exit']) if 'exit' in kv else None,
                            fe=None if kv.get('fe', '-') == '-' else m.order[int(kv['fe'])]))
     r['builds'] = builds
     return r
@@ -415,25 +562,6 @@ def through_phony(g, prod, i, depth=0):
         return [x for j in p.exp + p.imp + p.oo for x in through_phony(g, prod, j, depth + 1)]
     return [p]
 
-def tainted_statements(g, sources=None):
-    """positions of the real statements that read (non-order-only, through any statements) an output of an ALWAYS-DIRTY real
-    statement, i.e. of one that is dirty in EVERY scan, also right after it has run: it reads an input-less phony name (directly
-    or through phony aliases), or -- recorded deps -- one of its hidden reads is a source file that does not exist now (`sources`
-    = the source files present: "a missing recorded dependency makes the statement dirty rather than being an error")"""
-    ad = set()                      # names that are always dirty: outputs of input-less phony statements and aliases of them
-    if sources is not None:
-        ad |= {x for e in g.edges if e.deps for x in e.hidden if x in g.sources and x not in sources}
-    for e in g.edges:
-        if e.phony and (not e.manifest_ins() or any(i in ad for i in e.exp + e.imp)): ad |= set(e.outs)
-    tn = set(); res = set()         # names below an always-dirty real statement
-    for k, e in enumerate(g.edges):
-        nonoo = e.exp + e.imp + e.hidden
-        if any(i in tn for i in nonoo):
-            tn |= set(e.outs)
-            if not e.phony: res.add(k)
-        elif not e.phony and any(i in ad for i in nonoo): tn |= set(e.outs)
-    return res
-
 def depends_on(g, f):
     """positions of the statements that depend on an output of statement f (transitively, inputs of every kind)"""
     outs = set(g.edges[f].outs); res = set(); changed = True
@@ -444,13 +572,13 @@ def depends_on(g, f):
             if any(i in outs for i in e.manifest_ins()): res.add(k); outs |= set(e.outs); changed = True
     return res
 
-def compare_build(h, m, st, b, mb, prev_ok_same, nip, cnt, prev=None, flags=None):
+def compare_build(h, m, st, b, mb, prev_ok_same, nip, cnt, prev=None, flags=None, kind=None):
     """one build step (plain, dry run or failing build) -> list of (kind, text); counters updated in cnt.
     prev = (Build, model build) of the previous build step; flags: per-history facts ('wfault': a command has failed after
     rewriting its outputs)"""
     g = st.g; prod = g.producer(); bad = []; flags = flags if flags is not None else {}
-    kind = step_kind(st)
-    want = {'plain': 'B', 'dry': 'N', 'fault': 'F'}[kind]
+    kind = kind or step_kind(st)
+    want = {'plain': 'B', 'dry': 'N', 'fault': 'F', 'kill': 'K', 'intr': 'I'}[kind]
     if mb['what'] != want: return [('mapping', 'engine step is %s, model step is %s' % (want, mb['what']))]
     nm = lambda l: [g.edges[k].out0 for k in l]
     e_started = list(b.started)
@@ -461,7 +589,27 @@ def compare_build(h, m, st, b, mb, prev_ok_same, nip, cnt, prev=None, flags=None
     e_failed = [o for o, c in b.finished if c != 0] if kind != 'dry' else []
     e_ok = (b.exit == 0) or bool(e_failed)               # accepted by the scan (a failing build was accepted, then failed)
     refused = (b.exit not in (0, None)) and not e_started and 'missing and no known rule' in (b.err or '')
-    if b.exit != 0 and not refused and not (kind == 'fault' and e_failed):
+    if kind == 'kill':
+        # the child's events died with it: acceptance is that of the reference run, the commands started are those the
+        # classification of the dump found complete, plus the one the kill fell into once it had been spawned
+        refb = flags['ref']; f_, at_, bef_ = m.kill
+        e_ok = refb.exit == 0; refused = not e_ok
+        e_started = nm(bef_) + ([g.edges[f_].out0] if f_ is not None and at_[0] in 'wj' else [])
+        if not any(ev[0] == 'crashed' for ev in b.events): bad.append(('engine', 'the crash point was not reached'))
+        if mb['ok'] and mb['hit'] != (f_ is not None and e_ok):
+            bad.append(('kill-hit', 'engine: the kill fell %s; model: %s' % ('into %s' % g.edges[f_].out0 if f_ is not None else 'after the last command', 'into a started statement' if mb['hit'] else 'between statements')))
+        cnt['engine crash points compared: %s' % {'b': 'KBefore', 'l': 'KLocked', 'w': 'KWrote', 'j': 'KLogged'}[at_[0]]] += 1
+        if at_ == 'j0': cnt['engine crash points compared: KLogged 0 (all outputs written, no entry)'] += 1
+        if f_ is None: cnt['engine crash points compared: after the last command'] += 1
+        if at_[0] in 'wj': flags['wfault'] = True
+    elif kind == 'intr':
+        e_ok = True; refused = False
+        if (b.exit == 130) != (mb['exit'] == 130): bad.append(('exit', 'exit status: engine %s, model %s' % (b.exit, mb['exit'])))
+        if not any(ev[0] == 'interrupt' for ev in b.events): bad.append(('engine', 'no interrupt in the trace'))
+        if not mb['hit']: bad.append(('intr-hit', 'model: the interrupted statement %s is not started' % g.edges[m.intr[0]].out0))
+        cnt['interrupts compared'] += 1
+        if m.intr[1]: cnt['interrupts compared: the running command had modified its outputs'] += 1
+    elif b.exit != 0 and not refused and not (kind == 'fault' and e_failed):
         bad.append(('engine', 'the engine ended with exit=%s "%s" after starting %s: neither success nor a refusal%s' % (
             b.exit, (b.err or '')[:100], e_started, '' if kind != 'fault' else ' nor a failed command')))
     if e_ok != mb['ok']:
@@ -472,12 +620,7 @@ def compare_build(h, m, st, b, mb, prev_ok_same, nip, cnt, prev=None, flags=None
     m_run = sorted(mb['run'])
     if len(set(e_run)) != len(e_run): bad.append(('run-set', 'engine started a command twice: %s' % e_started))
     if e_run != m_run:
-        extra = set(m_run) - set(e_run)
         if kind == 'dry': bad.append(('dry-list', 'commands listed by -n: engine %s, model %s' % (nm(e_run), nm(m_run))))
-        elif set(e_run) <= set(m_run) and extra <= tainted_statements(g, st.sources if m.deps_mode else None) and kind == 'plain':
-            # KNOWN DEVIATION of HistDefs.dirty_now (see the module docstring): downstream of an always-dirty statement the model
-            # re-runs what ninja prunes
-            cnt['builds where the model re-ran statements ninja pruned below an always-dirty one (documented deviation)'] += 1
         else:
             bad.append(('run-set', 'commands %s: engine %s, model %s' % ('started' if kind == 'fault' else 'run', nm(e_run), nm(m_run))))
     # the model's order is the statement order; the engine's must respect the dependencies
@@ -490,7 +633,7 @@ def compare_build(h, m, st, b, mb, prev_ok_same, nip, cnt, prev=None, flags=None
                     if p.out0 in e_started and p is not e and p.out0 not in seen:
                         bad.append(('dry-order', 'the dry run lists %s before %s, the producer of its input %s' % (o, p.out0, i)))
             seen.add(o)
-    else:
+    elif kind != 'kill':
         fin = {}; sta = {}
         for i, ev in enumerate(b.events):
             if ev[0] == 'start': sta.setdefault(ev[1], i)
@@ -503,6 +646,16 @@ def compare_build(h, m, st, b, mb, prev_ok_same, nip, cnt, prev=None, flags=None
                     if p.out0 in sta and p is not e and not (p.out0 in fin and fin[p.out0] < sta[o]):
                         bad.append(('order', '%s started before %s (producer of its input %s) finished successfully' % (o, p.out0, i)))
     if mb['raw'] != sorted(mb['raw']): bad.append(('selfcheck', 'model trace/listing not in statement order: %s' % mb['raw']))
+    if mb.get('old') is not None:
+        # HistDefs.build / HistDepsDefs.dbuild from the same state: same acceptance, and the faithful loop runs a sub-sequence
+        # (HistFaithfulProofs.build_f_trace_subset); they differ where dirty_now's re-scan re-runs what CleanNode prunes
+        if mb['oldok'] != mb['ok']: bad.append(('selfcheck', 'model: build_f ok=%s, build ok=%s from the same state' % (mb['ok'], mb['oldok'])))
+        it = iter(mb['old'])
+        if not all(x in it for x in mb['run']): bad.append(('selfcheck', 'model: build_f ran %s, no sub-sequence of what build runs %s' % (mb['run'], mb['old'])))
+        if mb['old'] != mb['run']:
+            cnt['builds where HistDefs.build / dbuild would re-run statements that build_f / dbuild_f (and ninja) prune'] += 1
+            cnt['... statements re-run by build only'] += len(mb['old']) - len(mb['run'])
+            if nip and not m.deps_mode: bad.append(('selfcheck', 'model: build_f and build differ with no_inputless_phony (build_f_eq_build): %s vs %s' % (mb['run'], mb['old'])))
     # failing build: exit status, which statement, containment, nothing recorded
     if kind == 'fault':
         if bool(e_failed) != mb['failed']:
@@ -540,11 +693,8 @@ def compare_build(h, m, st, b, mb, prev_ok_same, nip, cnt, prev=None, flags=None
     # build-log entries and the time relations the dirty test reads: entry present, entry made by the current command line,
     # recorded mtime against the output's own mtime and against every non-order-only input's; output against input
     sgn = lambda a, b: (a > b) - (a < b)
-    # where the documented deviation lets the two states drift apart (and keeps them apart until the statement runs on both sides)
-    flags.setdefault('drift', set()).update(tainted_statements(g, st.sources if m.deps_mode else None))
-    skip = flags['drift']
     for k, e in enumerate(g.edges):
-        if e.phony or k in skip: continue
+        if e.phony: continue
         sn = b.snap.get(e.out0)
         if sn and sn.get('hash'): m.known_hash[e.eval_command()] = int(sn['hash'], 16)
         cur = m.known_hash.get(e.eval_command())
@@ -606,11 +756,13 @@ def compare_build(h, m, st, b, mb, prev_ok_same, nip, cnt, prev=None, flags=None
                 cnt['successful builds with stale files of another shape (side conditions false: hro=%s nru=%s hp=%s nip=%s)' % (flags['hro'], flags['nru'], flags['hp'], nip)] += 1
         if unclean and flags['hro'] and flags['nru'] and flags['hp'] and nip:
             bad.append(('selfcheck', 'model: %s needed by the targets of an accepted build, all side conditions true: not clean (C10_equiv + C01_history)' % sorted(unclean)))
-    if not m.deps_mode and mb['ok'] and kind != 'dry' and not mb['failed']:
+    if not m.deps_mode and mb['ok'] and kind in ('plain', 'fault') and not mb['failed']:
         targets = st.targets or ec.default_targets(g)
         unclean = [n for n in sorted(g.closure(targets, with_vals=False)) if n in mb['nodes'] and not mb['nodes'][n][1]]
-        if unclean and mb['ts']:
-            bad.append(('selfcheck', 'model: %s needed by the targets of an accepted build from a taint_safe state: not clean (C01_history_hcmd / C01F_history)' % unclean))
+        if kind == 'plain' and not mb['ts'] and prev is not None and prev[2] == 'kill':
+            cnt['recovery builds from a state that is not taint_safe (kill variant of id=failed-cmd-rewrote-output): %s' % ('not taint_safe_stmt either' if not mb['tss'] else 'taint_safe_stmt holds')] += 1
+        if unclean and (mb['ts'] or mb['tss']) and nip:
+            bad.append(('selfcheck', 'model: %s needed by the targets of an accepted build from a taint_safe state: not clean (C01_history_f / C01F_history)' % unclean))
         if unclean and not mb['ts'] and b.exit == 0 and all(n not in b.files or exp is None or b.files[n][1] != exp.get(n) for n in unclean):
             cnt['successful builds that kept what a failed command wrote (id=failed-cmd-rewrote-output, identical on both sides)'] += 1
     if kind == 'dry': cnt['dry runs compared'] += 1; cnt['commands listed by dry runs (engine)'] += len(e_started)
@@ -618,7 +770,7 @@ def compare_build(h, m, st, b, mb, prev_ok_same, nip, cnt, prev=None, flags=None
         # no convergence theorem where the side conditions fail (the statement pruned by the restat finding catches up in the next
         # build): the run-set rule above has already compared the two sides
         if e_started and e_run == m_run: cnt['repeated builds that ran commands again, identically on both sides (side conditions false)'] += 1
-    elif prev_ok_same and nip and not flags.get('wfault'):
+    elif prev_ok_same and nip and (not flags.get('wfault') or (prev is not None and prev[1].get('tss') and getattr(h, 'kill_mode', False))):
         if mb['run'] or not mb['ok']: bad.append(('selfcheck', 'model: the build repeated after an accepted one ran %s ok=%s (C02_history_hcmd)' % (mb['run'], mb['ok'])))
         if e_started or b.exit != 0: bad.append(('idle', 'engine: the build repeated after an accepted one started %s exit=%s' % (e_started, b.exit)))
     return bad
@@ -637,7 +789,9 @@ def check(ctx, seed, n, keep=None, dry=0.0, fault=False, deps=False):
 def compare_hists(hists, keep=None):
     """the given histories (enginecheck.Hist, steps inside the model) through both sides"""
     rc, tr, err, out = ec.run_hists(hists)
-    maps = [Map(h, tr.get(h.sid)) for h in hists]         # the engine's schedule of a failing build orders the model's statements
+    # the engine's schedule of a failing / killed / interrupted build orders the model's statements; a killed build is placed by
+    # comparing what it left with the same build run to its end (the reference scenario)
+    maps = [Map(h, tr.get(h.sid), tr.get(getattr(h, 'kill_ref', None))) for h in hists]
     mouts = [None] * len(maps)
     for mode in ('hist', 'histd'):
         idx = [i for i, m in enumerate(maps) if m.mode == mode]
@@ -663,6 +817,10 @@ def compare_hists(hists, keep=None):
         if 'dropdeps' in h.tags: r['hp'] = False
         if not r['wf'] or not r['hok']:
             mism.append(Mismatch(h.sid, 'mapping', 'the model line is malformed (wf=%s hist_ok=%s)' % (r['wf'], r['hok']), replay())); continue
+        if m.kill is not None and m.kill[0] == 'skip':
+            st_['engine crash points NOT compared: ' + m.kill[1]] += 1; continue
+        if m.intr is not None and m.intr[0] == 'skip':
+            st_['interrupts NOT compared: ' + m.intr[1]] += 1; continue
         reordered = m.order != list(range(len(m.order)))
         if reordered: st_['histories whose statements are numbered by ninja\'s schedule of the failing build'] += 1
         if reordered and r['frag'] and not r['topo']:
@@ -681,12 +839,14 @@ def compare_hists(hists, keep=None):
         if len(prs) != len(r['builds']) or len(prs) != sum(1 for s in h.steps if s.kind == 'build'):
             mism.append(Mismatch(h.sid, 'mapping', 'engine ran %d builds, model %d' % (len(prs), len(r['builds'])), replay())); continue
         bad = []; prev = None; flags = {k: r.get(k, True) for k in ('hro', 'nru', 'hp')}; pending_dry = None
+        if getattr(h, 'kill_ref', None): flags['ref'] = tr[h.kill_ref][-1]
         if m.deps_mode:
             if any(e.deps and e.hidden for e in h.g0.edges): st_['histories with a deps statement that has hidden reads'] += 1
             for k_ in ('hro', 'nru', 'hp'):
                 if not r[k_]: st_['inside, %s false' % {'hro': 'hidden_reads_ordered', 'nru': 'no_restat_upstream_of_deps', 'hp': 'hist_present'}[k_]] += 1
         for k, ((st, b), mb) in enumerate(zip(prs, r['builds'])):
             kind = step_kind(st)
+            if kind == 'intr' and m.intr is None: kind = 'plain'; st_['interrupt points after the last command (plain build)'] += 1
             if m.deps_mode and not r['hro']:
                 # without a manifest path ninja may start the reader of a generated hidden read before its generator (both in this
                 # build): the model's order is the manifest order, the comparison ends here
@@ -702,11 +862,11 @@ def compare_hists(hists, keep=None):
             rep = bool(getattr(st, 'repeat', False)) and prev is not None and prev[0].exit == 0 and prev[1]['ok'] and prev[2] == 'plain' and kind == 'plain'
             if rep and r['nip'] and not flags.get('wfault') and (not m.deps_mode or (flags['hro'] and flags['nru'] and flags['hp'])): st_['repeated builds compared (idle in both)'] += 1
             if b.started: st_['builds that ran commands'] += 1
-            if b.exit != 0 and not mb['ok']: st_['builds refused by both'] += 1
+            if b.exit not in (0, None) and not mb['ok']: st_['builds refused by both'] += 1
             if b.exit == 0 and not b.started and kind == 'plain': st_['builds with nothing to do'] += 1
             st_['commands run (engine)'] += len(b.started)
             st_['node comparisons'] += len(m.names)
-            for kd, text in compare_build(h, m, st, b, mb, rep, r['nip'], st_, prev, flags):
+            for kd, text in compare_build(h, m, st, b, mb, rep, r['nip'], st_, prev, flags, kind):
                 bad.append((kd, 'build %d: %s' % (k, text)))
             # the commands of a real build that follows a dry run of the same targets at once are among the listed ones
             # (C19_dry_superset; equality when nothing is pruned is C19_dry_difference_exact)
@@ -729,7 +889,7 @@ def compare_hists(hists, keep=None):
     st_.setdefault('outside the fragment (model verdict)', 0)
     kinds = collections.Counter()
     for h in hists:
-        for s in h.steps: kinds[s.kind if s.kind != 'build' else {'plain': 'build', 'dry': 'build -n', 'fault': 'build with faults'}[step_kind(s)]] += 1
+        for s in h.steps: kinds[s.kind if s.kind != 'build' else {'plain': 'build', 'dry': 'build -n', 'fault': 'build with faults', 'kill': 'build killed', 'intr': 'build interrupted'}[step_kind(s)]] += 1
     stats = dict(st_); stats['steps'] = dict(kinds)
     if keep:
         os.makedirs(keep, exist_ok=True)
@@ -801,12 +961,30 @@ def hook(ctx, pid, dry=0.0, fault=False, deps=False, quick=400, thorough=5000, k
         ctx.replay_file('hist-mismatch', x.replay)
     if len(mism) > 5: ctx.corr_broken.append('history model (HistDefs): %d more mismatching histories' % (len(mism) - 5))
     ctx.cov['hist_model_correspondence'] = stats
-    extra = [k for k in stats if k.startswith(('dry runs', 'failing builds', 'commands listed', 'successful builds', '... where', 'histories whose statements',
+    extra = [k for k in stats if k.startswith(('dry runs', 'failing builds', 'commands listed', 'successful builds', '... where', 'histories whose statements', 'builds where HistDefs', '... statements',
                                                'deps records', 'inside, ', 'histories cut short', 'histories with a deps'))]
     ctx.cov.setdefault('distribution', {})[key] = {k: stats.get(k, 0) for k in extra + [
         'histories', 'inside the fragment', 'outside the fragment (model verdict)',
         'builds compared', 'builds that ran commands', 'builds refused by both', 'repeated builds compared (idle in both)',
         'node comparisons', 'log entries compared', 'time relations compared', 'mismatching histories']}
+    ctx.cov['traces_validated_against_model'] = ctx.cov.get('traces_validated_against_model', 0) + stats.get('builds compared', 0)
+
+def hook_crash(ctx, pid='C07', quick=150, thorough=1200, cap=10, key='hist_model_crash_points'):
+    """called by props/c07.py: kills at every (sampled) crash point of an invocation and interrupts, against HistCrashDefs"""
+    if not ctx.model: return
+    os.environ['HISTMODEL_BIN'] = os.path.join(os.path.dirname(ctx.model), 'hist_run')
+    if ctx.replay: return hook(ctx, pid)
+    handle = start_proof_check(ctx)
+    mism, stats = check_crash(ctx, ctx.seed * 31 + int(pid[1:]), quick if ctx.quick() else thorough, cap if ctx.quick() else 3 * cap)
+    finish_proof_check(ctx, handle)
+    for x in mism[:5]:
+        ctx.corr_broken.append('history model (HistCrashDefs) differs from ninja in scenario %s [%s]: %s' % (x.sid, x.kind, x.text[:600]))
+        ctx.replay_file('hist-mismatch', x.replay)
+    if len(mism) > 5: ctx.corr_broken.append('history model (HistCrashDefs): %d more mismatching histories' % (len(mism) - 5))
+    ctx.cov['hist_model_crash_correspondence'] = stats
+    keys = [k for k in stats if k.startswith(('engine crash points', 'interrupt', 'recovery builds', 'base histories', 'crash point', 'histories whose'))]
+    ctx.cov.setdefault('distribution', {})[key] = {k: stats.get(k, 0) for k in keys + ['histories', 'builds compared', 'node comparisons', 'log entries compared',
+                                                                                      'time relations compared', 'repeated builds compared (idle in both)', 'mismatching histories']}
     ctx.cov['traces_validated_against_model'] = ctx.cov.get('traces_validated_against_model', 0) + stats.get('builds compared', 0)
 
 def replay(path):
@@ -838,6 +1016,11 @@ if __name__ == '__main__':
     keep = a[a.index('--keep') + 1] if '--keep' in a else None
     dry = float(a[a.index('--dry') + 1]) if '--dry' in a else 0.0
     import time; t0 = time.time()
+    if '--crash' in a:
+        mism, stats = check_crash(None, seed, n, keep=keep)
+        for k in sorted(stats): print('%-60s %s' % (k, stats[k]))
+        for x in mism[:10]: print('MISMATCH', x)
+        print('%d bases, %d mismatching, %.1fs' % (n, len(mism), time.time() - t0)); sys.exit(1 if mism else 0)
     mism, stats = check(None, seed, n, keep=keep, dry=dry, fault='--fault' in a, deps='--deps' in a)
     for k in sorted(stats): print('%-60s %s' % (k, stats[k]))
     for x in mism[:10]:
